@@ -161,17 +161,39 @@ def oracle(w, fails, case, tag, fresh_stationary=False):
         fails.append(Failure("byname-finds-present", "every assembly in the core or the pool is found under its name",
                              case, observed=miss[:4], note=tag))
     pool = list(sfp) if w.track else []
+    # (i) every block present is found under its current name
     bmiss = [b.name for a in kids + pool for b in a if bb.get(b.name) is not b]
-    bstale = [k for k, v in bb.items() if v.name != k]
-    if bmiss or bstale:
-        key = "discharge-fresh-stationary-block-names" if fresh_stationary else "blocksbyname-truthful"
-        fails.append(Failure(key, "every block in the core or the pool is found under its current name, and a name "
-                             "never resolves to a block that is called otherwise", case,
-                             observed={"not found": bmiss[:4], "stale keys": bstale[:4]}, note=tag))
+    if bmiss:
+        # the one clause known to fail at the excluded point: with tracking ON the pooled outgoing assembly holds
+        # the fresh assembly's exchanged stationary block under its never-registered name `B-<negative>-nnn`
+        narrow = fresh_stationary and w.track and all(n.startswith("B-") for n in bmiss)
+        key = "discharge-fresh-stationary-block-names" if narrow else "blocks-found-by-name"
+        fails.append(Failure(key, "every block in the core or the pool is found under its current name", case,
+                             observed={"not found": bmiss[:4]}, note=tag))
+    # (ii) a lookup never returns something that is neither in the core nor in the pool (purged objects)
+    here_a = {id(a) for a in kids} | {id(a) for a in sfp}
+    here_b = {id(b) for a in kids for b in a} | {id(b) for a in sfp for b in a}
+    gone_a = [k for k, v in bn.items() if id(v) not in here_a]
+    gone_b = [k for k, v in bb.items() if id(v) not in here_b]
+    if gone_a:
+        fails.append(Failure("purged-not-found", "assembliesByName never returns an assembly that is neither in the core "
+                             "nor in the pool", case, observed=gone_a[:4], note=tag))
+    if gone_b:
+        # derived form of the same excluded point: the key a renamed (exchanged stationary) block was registered
+        # under before `renumber` is never deleted, so it still resolves to that block after its assembly is purged
+        stale_only = fresh_stationary and all(bb[k].name != k for k in gone_b)
+        key = "stale-block-key-returns-purged-block" if stale_only else "purged-not-found"
+        fails.append(Failure(key, "blocksByName never returns a block of a purged assembly", case,
+                             observed=gone_b[:4], note=tag))
+    ctx_stale = sum(1 for k, v in bb.items() if v.name != k)
+    if ctx_stale:
+        w.stale_seen = max(getattr(w, "stale_seen", 0), ctx_stale)   # reported in the evidence histogram only
     for a in w.purged:
         if bn.get(a.name) is a or a in kids or a in list(sfp) or any(bb.get(b.name) is b for b in a):
-            fails.append(Failure("purged-not-found", "a purged assembly (or one of its blocks) is never returned by a "
-                                 "lookup", case, observed=a.name, note=tag))
+            found = [b.name for b in a if bb.get(b.name) is b]
+            fails.append(Failure("purged-not-found", "a purged assembly (or one of the blocks it left with) is never "
+                                 "returned by a lookup", case, observed={"assembly": a.name, "blocks still found": found[:5]},
+                                 note=tag))
     present = {id(a) for a in kids} | {id(a) for a in sfp}
     expected = set(w.universe) - {id(a) for a in w.purged}
     if present != expected or len(kids) + len(sfp) != len(present):
@@ -385,17 +407,51 @@ def excluded_points(ctx):
     import random
     from armi.physics.fuelCycle import fuelHandlers  # noqa
     fails = []
-    # fresh incoming + stationary blocks + tracking: block names
-    w = World(True, "gridplate")
+    # fresh incoming assembly WITH stationary blocks: outside the model's domain (names are not modelled), so the
+    # stream is judged by the oracle alone - ALL clauses stay on; only the two clauses known to fail are keyed as
+    # findings (tracking on: unregistered block name in the pool; later purge: stale key resolves to a purged block)
     rng = random.Random(5)
-    case = {"stream": "fresh discharge with stationary blocks", "track": True}
-    new = fresh_assembly(w, rng)
-    out = list(w.core)[10]
-    exc = apply_op(w, ("dnew", new, out))
-    if exc is not None:
-        fails.append(Failure("valid-op-raises", "a valid shuffling operation completes", case, observed=repr(exc)[:160]))
-    oracle(w, fails, case, "dischargeSwap(fresh, core[10])", fresh_stationary=True)
-    ctx.count("excluded: fresh discharge with stationary blocks")
+    for track, stat in ((True, "gridplate"), (False, "gridplate"), (True, "multi"), (False, "multi")):
+        w = World(track, stat)
+        case = {"stream": "fresh discharge with stationary blocks", "track": track, "stationary": stat}
+        kids = list(w.core)
+        fuel = [a for a in kids if len({w.is_stat(b) for b in a}) == 2]
+
+        def same_layout(x, y):
+            return [k for k, b in enumerate(x) if w.is_stat(b)] == [k for k, b in enumerate(y) if w.is_stat(b)]
+
+        def do(op, tag):
+            exc = apply_op(w, op)
+            if exc is not None:
+                fails.append(Failure("valid-op-raises", "a valid shuffling operation completes", case,
+                                     observed=repr(exc)[:160], note=tag))
+            n0 = len(fails)
+            oracle(w, fails, case, tag, fresh_stationary=True)
+            contents_ok(w, fails, case, tag, touched(op))
+            ctx.count("excluded-stream op " + op[0])
+            return exc is None and len(fails) == n0
+
+        new1 = fresh_assembly(w, rng)
+        out1 = next(a for a in fuel if same_layout(new1, a))
+        do(("dnew", new1, out1), "dischargeSwap(fresh1, %s)" % out1.name)
+        new2 = fresh_assembly(w, rng)
+        out2 = next(a for a in fuel if a is not out1 and a.parent is w.core and same_layout(new2, a))
+        do(("dnew", new2, out2), "dischargeSwap(fresh2, %s)" % out2.name)
+        partner = next(a for a in w.core if a is not new1 and a is not new2 and same_layout(new1, a))
+        do(("swap", new1, partner), "swap(fresh1, %s)" % partner.name)
+        others = [a for a in w.core if a not in (new1, new2, partner)]
+        do(("remove", others[5], True), "removeAssembly(%s, discharge=True)" % others[5].name)
+        do(("remove", others[6], False), "removeAssembly(%s, discharge=False)" % others[6].name)
+        if len(w.sfp) > 0:
+            pooled = list(w.sfp)[0]
+            tgt = next((a for a in w.core if a not in (new1, new2) and same_layout(pooled, a)), None)
+            if tgt is not None:
+                do(("dsfp", pooled, tgt), "dischargeSwap(pooled %s, %s)" % (pooled.name, tgt.name))
+        # finally purge an assembly that carries a renamed (exchanged) stationary block
+        do(("remove", new2, False), "removeAssembly(fresh2, discharge=False)")
+        contents_ok(w, fails, case, "end of stream", list(w.core) + list(w.sfp))
+        ctx.distinct.add(("excluded-stream", track, stat))
+        ctx.count("excluded: fresh discharge with stationary blocks (track=%s, %s)" % (track, stat))
     # F11a: add at an occupied location
     w = World(True, "none")
     case = {"stream": "Core.add at an occupied location"}
